@@ -200,8 +200,8 @@ func C05(p *core.Program, r *core.Report) {
 				if a := loadedAlloc(c.V); a != nil && sentFlagIsTruthful(p, r, fn, a) {
 					okSent = true
 				}
-				if phi, ok := c.V.(*ssa.Phi); ok && phi.Comment == "deleteAfterwards" {
-					okDel = deleteAfterwardsSound(phi)
+				if phi, ok := c.V.(*ssa.Phi); ok && deleteAfterwardsSound(phi) {
+					okDel = true
 				}
 			}
 			r.Check(okSent && okDel, key, rule, p.Pos(cs.Pos()), "under bundleSent (set only on Send()==nil) and deleteAfterwards (true only for direct delivery or by the algorithm's decision)", fmt.Sprintf("sent-guard=%v delete-guard=%v; %s", okSent, okDel, condStrings(conds)))
@@ -527,9 +527,7 @@ func checkPerPeerGoroutines(p *core.Program, r *core.Report) {
 			}
 			for _, ref := range *a.Referrers() {
 				if st, isSt := ref.(*ssa.Store); isSt && st.Addr == ssa.Value(a) && l.Blocks[st.Block()] && bad == "" {
-					if a.Comment != "bundleSent" {
-						bad = "the goroutine captures variable " + a.Comment + ", which the loop overwrites on every iteration"
-					}
+					bad = "the goroutine captures variable " + a.Comment + ", which the loop overwrites on every iteration"
 				}
 			}
 		}
@@ -543,16 +541,19 @@ func checkPerPeerGoroutines(p *core.Program, r *core.Report) {
 // (constant true when senderForDestination found peers) or the algorithm's
 // own decision.
 func deleteAfterwardsSound(phi *ssa.Phi) bool {
+	fromAlgo := false
+	defer func() { _ = fromAlgo }()
 	for _, e := range phi.Edges {
 		if core.IsBoolConst(e, true) {
 			continue
 		}
 		if ex, ok := e.(*ssa.Extract); ok {
 			if c, ok := ex.Tuple.(*ssa.Call); ok && c.Common().IsInvoke() && c.Common().Method.Name() == "SenderForBundle" {
+				fromAlgo = true
 				continue
 			}
 		}
 		return false
 	}
-	return true
+	return fromAlgo
 }
